@@ -109,7 +109,7 @@ def parse_summary(out):
     return dict(zip(k, map(int, m.groups())))
 
 
-def run_cli(args, epoch=None, env_extra=None, cwd=None, strace_out=None, inject=None, timeout=120, release=False, umask=None, fsize_limit=None, as_uid=None, binary=None):
+def run_cli(args, epoch=None, env_extra=None, cwd=None, strace_out=None, inject=None, timeout=120, release=False, umask=None, fsize_limit=None, as_uid=None, binary=None, fsize_kill=False):
     env = dict(ENV)
     env.pop("SOURCE_DATE_EPOCH", None)
     if epoch is not None:
@@ -129,7 +129,8 @@ def run_cli(args, epoch=None, env_extra=None, cwd=None, strace_out=None, inject=
             # a file may not grow beyond this many bytes: the write that crosses the limit is cut short, the next one fails with EFBIG
             # (SIGXFSZ ignored, as under a full quota or file system the process just sees short and failing writes)
             import resource
-            signal.signal(signal.SIGXFSZ, signal.SIG_IGN)
+            # (fsize_kill: the default action instead - the process that crosses the limit is killed, as a worker may be by any signal)
+            signal.signal(signal.SIGXFSZ, signal.SIG_DFL if fsize_kill else signal.SIG_IGN)
             resource.setrlimit(resource.RLIMIT_FSIZE, (fsize_limit, fsize_limit))
         if as_uid is not None:
             # an unprivileged invoker (no supplementary groups): chown to somebody else is refused
